@@ -4,7 +4,10 @@ from __future__ import annotations
 
 from dataclasses import dataclass
 
-from krrood.entity_query_language.predicate import Predicate, symbolic_function
+from dataclasses import field
+from typing import List
+
+from krrood.entity_query_language.predicate import Predicate, Symbol, symbolic_function
 
 LOG = []
 
@@ -49,6 +52,27 @@ class P:
 
 
 class Q(P):
+    pass
+
+
+@dataclass(eq=False)
+class LS(Symbol):
+    """a Symbol dataclass whose public fields log every read (for match patterns and domain-less variables)"""
+    name: str = ""
+    a: int = 0
+    parts: List["LS"] = field(default_factory=list)
+
+    def __getattribute__(self, n):
+        if n in ("a", "parts"):
+            LOG.append(("get", object.__getattribute__(self, "name"), n))
+        return object.__getattribute__(self, n)
+
+    def __repr__(self):
+        return "LS<%s>" % object.__getattribute__(self, "name")
+
+
+@dataclass(eq=False)
+class LS2(LS):
     pass
 
 
